@@ -18,6 +18,7 @@ package gomatrixserverlib
 import (
 	"encoding/json"
 	"fmt"
+	"unicode/utf8"
 
 	"github.com/matrix-org/gomatrixserverlib/spec"
 	"github.com/tidwall/sjson"
@@ -38,6 +39,12 @@ func SignJSON(signingName string, keyID KeyID, privateKey ed25519.PrivateKey, me
 		Unsigned   spec.RawJSON                          `json:"unsigned"`
 	}{
 		Signatures: map[string]map[KeyID]spec.Base64Bytes{},
+	}
+	// A JSON text is UTF-8 (RFC 8259 section 8.1). encoding/json would silently replace the
+	// offending bytes in member names with U+FFFD, so that VerifyJSON could not verify the
+	// signature made here over the original bytes.
+	if !utf8.Valid(message) {
+		return nil, fmt.Errorf("gomatrixserverlib: cannot sign JSON that is not valid UTF-8")
 	}
 	// Pick the two members out by their exact names. Decoding straight into the struct matches
 	// field names case-insensitively, so that e.g. a member "Unsigned" would overwrite "unsigned".
